@@ -14,7 +14,7 @@ LEVEL = "proof"
 TICKS = [0.0625, 0.125, 0.1, 0.05, 0.2, 0.3, 1.0]
 
 
-def grid_prog(tick, periods, orders, bid=None):
+def grid_prog(tick, periods, orders, bid=None, ctl="run"):
     """one framer per tasker: a single frame with a recorder in recur; optional period-changing bid"""
     fms = []
     tag = 0
@@ -30,7 +30,7 @@ def grid_prog(tick, periods, orders, bid=None):
         # after `when` recurs, rebid run with a new period for target (period change by a bid)
         fr["preacts"].append(["go", [["recurred", ">=", when]], "f1"])
         f1 = {"name": "f1", "over": None, "under": None, "beacts": [],
-              "enacts": [["rec", 900 + who], ["bid", "run", ["m%d" % target], newp]],   # recorder announces the bid
+              "enacts": [["rec", 900 + who], ["bid", ctl, ["m%d" % target], newp]],   # recorder announces the bid
               "renacts": [], "preacts": [], "reacts": [["rec", 950 + who]], "exacts": [], "rexacts": [], "auxes": []}
         fms[who]["frames"].append(f1)
     return {"tick": tick, "nvars": 1, "framers": fms}
@@ -167,9 +167,11 @@ def run(ctx):
         for ps in take:
             orders = [ctx.rng.choice(["front", "mid", "back"]) for _ in ps]
             bid = None
-            if ctx.rng.random() < 0.4:
-                bid = (ctx.rng.randrange(len(ps)), ctx.rng.randint(1, 4), ctx.rng.choice(pers), ctx.rng.randrange(len(ps)))
-            progs.append(grid_prog(tick, list(ps), orders, bid))
+            if ctx.rng.random() < 0.6:
+                bid = (ctx.rng.randrange(len(ps)), ctx.rng.randint(1, 4), ctx.rng.choice(pers + [0.0, 0.0]),
+                       ctx.rng.randrange(len(ps)))
+            # every period-carrying control (start / run / ready), incl. a new period of exactly 0
+            progs.append(grid_prog(tick, list(ps), orders, bid, ctl=ctx.rng.choice(["run", "start", "run", "ready"])))
     cases, metas = [], []
     for i, p in enumerate(progs):
         ob = kernel.run_impl(p, None, ctx.work, "g%d" % i, maxticks=maxticks)
